@@ -372,6 +372,73 @@ def run_sequence(role, state, names, obs, modulate=False):
     return problems, any_oop
 
 
+def run_givenup(role, how, extra, probe, obs):
+    ''' Own bundles given up because termination began before they were started: their ids are no transfers of the
+    session any more, so an ACK or refusal naming one is about an unknown transfer. '''
+    peer = Peer(role, 'idle')
+    problems = []
+    first = peer.queue_own()
+    peer.settle()
+    others = []
+    for _ in range(extra):
+        others.append(peer.queue_own())     # the loop does not run in between: they wait behind the first
+    if how == 'peer':
+        peer.write(tw.encode(dict(type='SESS_TERM', flags=0, reason=0)))
+    else:
+        peer.end.call('terminate', dbus.Byte(0))
+    peer.settle()
+    if peer.sim.world.callback_errors:
+        err = peer.sim.world.callback_errors[0]
+        return [('raised', 'callback %s raised %s while termination began' % (err.source, err.exc_type), dict(exc_type=err.exc_type))], False
+    started = set(str(m['transfer_id']) for m in peer.seen if m['type'] == 'XFER_SEGMENT' and m['flags'] & tw.FLAG_START)
+    fins = {}
+    for ev in peer.sim.hist.signals('send_bundle_finished'):
+        fins.setdefault(str(ev['args'][0]), []).append(str(ev['args'][2]))
+    given_up = [tid for tid in others if tid not in started and fins.get(tid)]
+    any_oop = False
+    for tid in given_up + ['4242']:
+        for kind in probe:
+            if peer.closed():
+                break
+            if kind == 'refuse':
+                msg = dict(type='XFER_REFUSE', reason=2, transfer_id=int(tid))
+            else:
+                flags = dict(ack=0, ackstart=tw.FLAG_START, ackend=tw.FLAG_START | tw.FLAG_END)[kind]
+                msg = dict(type='XFER_ACK', flags=flags, transfer_id=int(tid), length=5)
+            before = peer.reactions()
+            rejects_before = sum(1 for m in peer.seen if m['type'] == 'MSG_REJECT')
+            peer.write(tw.encode(msg))
+            peer.settle()
+            any_oop = True
+            obs['out_of_place_injected'] += 1
+            what = '%s naming %s in a terminating session (%s endpoint, termination begun by %s, %d bundle(s) given up behind the one in flight)' % (
+                msg['type'], 'given-up transfer ' + tid if tid in given_up else 'an id never used', role, how, len(given_up))
+            errs = peer.sim.world.callback_errors
+            if errs:
+                problems.append(('raised', 'after %s: callback %s raised %s: %s' % (what, errs[0].source, errs[0].exc_type, str(errs[0].exc)[:60]),
+                                 dict(msg=kind, exc_type=errs[0].exc_type)))
+                return problems, any_oop
+            if peer.reactions() > before or peer.closed():
+                obs['reactions_seen'] += 1
+            else:
+                problems.append(('no-reaction', '%s got no MSG_REJECT, SESS_TERM or closure' % what, dict(msg=kind)))
+    # the transfer in flight is unaffected: the honest peer acknowledges it and the session closes
+    peer.cooperate()
+    errs = peer.sim.world.callback_errors
+    if errs:
+        problems.append(('raised', 'while the peer cooperated: callback %s raised %s' % (errs[0].source, errs[0].exc_type), dict(exc_type=errs[0].exc_type)))
+    else:
+        fins = {}
+        for ev in peer.sim.hist.signals('send_bundle_finished'):
+            fins.setdefault(str(ev['args'][0]), []).append(str(ev['args'][2]))
+        if fins.get(first) == ['success']:
+            obs['own_transfers_completed'] += 1
+        elif first in started:
+            problems.append(('own-transfer', 'the transfer in flight (%s) ended with %s although the peer acknowledged every segment' % (first, fins.get(first)), {}))
+        obs['deliveries_checked'] += 1
+    return problems, any_oop
+
+
 def _state_alphabet(state):
     base = ['seg-whole', 'seg-start', 'seg-mid-current', 'seg-end-current', 'seg-mid-other', 'seg-end-other', 'ack-unknown', 'ack-unknown-end',
             'refuse-unknown', 'refuse-id1', 'seg-mid-zero', 'seg-end-zero', 'sess-term', 'keepalive', 'msg-reject', 'unknown-type', 'unknown-type-ff', 'unknown-type-00', 'unknown-type-08']
@@ -410,6 +477,9 @@ def cases(tier, seed):
             for idx in range(0, len(seqs), 40):
                 out.append(dict(id='mod-%s-%s-%d' % (role, state, idx), kind='seqs', role=role, state=state, modulate=True,
                                 seqs=[list(item) for item in seqs[idx:idx + 40]]))
+    for role in ('passive', 'active'):
+        for how in ('peer', 'own'):
+            out.append(dict(id='givenup-%s-%s' % (role, how), kind='givenup', role=role, how=how))
     for idx in range(1500 if thorough else 24):
         out.append(dict(id='rand-%d' % idx, kind='rand', seed=seed * 7477 + idx, count=25))
     return out
@@ -428,14 +498,21 @@ def run_case(case):
     modulate = bool(case.get('modulate'))
     if case['kind'] == 'seqs':
         items = [(case['role'], case['state'], seq) for seq in case['seqs']]
-    else:
+    elif case['kind'] == 'rand':
         rng = random.Random(case['seed'])
         for _ in range(case['count']):
             state = rng.choice(STATES[1:])
             alpha = _state_alphabet(state) + ['queue-own']
             items.append((rng.choice(['passive', 'active']), state, [rng.choice(alpha) for _ in range(rng.randint(3, 12))]))
+    if case['kind'] == 'givenup':
+        for extra in (0, 1, 2, 3):
+            for probe in (['refuse'], ['ack'], ['ackstart'], ['ackend'], ['ack', 'refuse', 'refuse']):
+                items.append((case['role'], 'givenup:%s:%d' % (case['how'], extra), probe))
     for (role, state, seq) in items:
-        problems, any_oop = run_sequence(role, state, seq, obs, modulate=modulate)
+        if state.startswith('givenup:'):
+            problems, any_oop = run_givenup(role, state.split(':')[1], int(state.split(':')[2]), seq, obs)
+        else:
+            problems, any_oop = run_sequence(role, state, seq, obs, modulate=modulate)
         obs['sequences'] += 1
         if any_oop:
             classes.add('%s|%s|%s|%s' % (role, state, ','.join(seq), modulate))
